@@ -37,6 +37,8 @@ pub struct PoolDesc {
     pub reservations: Vec<(Vec<u8>, u32)>,
     /// the policy also pushes some 700 octets of options (long domain name, portal URL, 30 NTP servers)
     pub big: bool,
+    /// the policy also says `apply-server-id: 198.51.100.7`
+    pub sid_option: bool,
 }
 
 pub const BIG_OPTION_CODES: [u8; 3] = [15, 114, 42];
@@ -82,6 +84,11 @@ impl ConfigDesc {
                 s += &format!("    apply-domain-name: '{}.example'\n", "d".repeat(230));
                 s += &format!("    apply-captive-portal: 'https://portal.example/{}'\n", "p".repeat(220));
                 s += &format!("    apply-ntp-servers: [{}]\n", (1..=30).map(|k| format!("10.9.9.{}", k)).collect::<Vec<_>>().join(", "));
+            }
+            if p.sid_option {
+                // "server-id" is an ordinary entry of the option table, so a policy may set it; whatever it says, replies must
+                // name THIS server
+                s += "    apply-server-id: 198.51.100.7\n";
             }
             if !p.reservations.is_empty() {
                 s += "    policies:\n";
@@ -213,6 +220,7 @@ pub fn gen_world(r: &mut Rng) -> World {
                 }
             }
             p.big = r.chance(1, 4);
+            p.sid_option = r.chance(1, 5);
             pools.push(p);
         }
         configs.push(ConfigDesc { pools });
@@ -332,6 +340,7 @@ pub fn world_to_json(w: &World) -> Value {
             "range": p.range.map(|(a, b)| json!([ipj(a), ipj(b)])),
             "reservations": p.reservations.iter().map(|(m, a)| json!([hex(m), ipj(*a)])).collect::<Vec<_>>(),
             "big": p.big,
+            "sid_option": p.sid_option,
         })).collect::<Vec<_>>())).collect::<Vec<_>>(),
     })
 }
@@ -372,6 +381,7 @@ pub fn world_from_json(v: &Value) -> Option<World> {
                 range,
                 reservations,
                 big: p["big"].as_bool().unwrap_or(false),
+                sid_option: p["sid_option"].as_bool().unwrap_or(false),
             });
         }
         configs.push(ConfigDesc { pools });
@@ -872,6 +882,16 @@ impl<'a> HistoryRun<'a> {
             }
             r.shuffle(&mut prl);
             extra.push((55u8, prl));
+        }
+        if r.chance(1, 5) {
+            // options that describe the machine rather than the client: the SAME value from every client (cloned images, a
+            // vendor's placeholder UUID, one relay port): none of them is the client identifier
+            match r.below(4) {
+                0 => extra.push((97u8, [vec![0u8], vec![0x11; 16]].concat())),
+                1 => extra.push((82u8, vec![1, 4, 0, 0, 0, 7, 2, 4, 0xaa, 0xbb, 0xcc, 0xdd])),
+                2 => extra.push((60u8, b"MSFT 5.0".to_vec())),
+                _ => extra.push((93u8, vec![0, 7])),
+            }
         }
         if r.chance(1, 4) {
             // maximum DHCP message size
@@ -1494,11 +1514,11 @@ pub fn run(prop: Prop, seed: u64, params: &HistParams, scratch: &std::path::Path
             Err(_) => total.inconclusive("shard thread died"),
         }
     }
-    if prop == Prop::C09 {
+    if prop == Prop::C09 || prop == Prop::C01 {
         let mut leg = total.child();
-        let n = if params.histories > 5_000 { 12 } else { 3 };
+        let n = if params.histories > 5_000 { 12 } else { 4 };
         for k in 0..n {
-            c09_large_pool(&mut leg, seed, k);
+            c09_large_pool(&mut leg, seed, k, prop);
         }
         total.merge(leg);
     }
@@ -1507,7 +1527,7 @@ pub fn run(prop: Prop, seed: u64, params: &HistParams, scratch: &std::path::Path
 
 /// C09's refusal clause on pools far larger than the histories use: N addresses of which all but `free` are held by
 /// other clients; newcomers must be given the free ones, and only then be refused.
-fn c09_large_pool(leg: &mut Leg, seed: u64, k: u64) {
+fn c09_large_pool(leg: &mut Leg, seed: u64, k: u64, prop: Prop) {
     let mut r = Rng::derive(seed, 0xC09B, k);
     let n = *r.pick(&[1_100usize, 1_500, 2_046, 3_000, 4_094]);
     let free = *r.pick(&[1usize, 2, 5]);
@@ -1541,11 +1561,11 @@ fn c09_large_pool(leg: &mut Leg, seed: u64, k: u64) {
                 Ok(l) => {
                     let a = u32::from(l.ip);
                     if !left.remove(&a) {
-                        viol.push(("large-pool/newcomer-given-a-held-address".to_string(), format!("pool of {}: newcomer {} given {} which is held", n, j, l.ip)));
+                        viol.push((if prop == Prop::C01 { "double-lease/large-pool" } else { "large-pool/newcomer-given-a-held-address" }.to_string(), format!("pool of {}: newcomer {} given {} which another client holds (unexpired)", n, j, l.ip)));
                     }
                 }
                 Err(e) => {
-                    if !left.is_empty() {
+                    if !left.is_empty() && prop == Prop::C09 {
                         viol.push((
                             "refused-although-an-address-is-free/large-pool".to_string(),
                             format!("pool of {} addresses, {} held by others, {} still free ({}), yet newcomer {} is refused: {}", n, n - free, left.len(), ipj(*left.iter().next().unwrap()), j, e),
@@ -1560,11 +1580,11 @@ fn c09_large_pool(leg: &mut Leg, seed: u64, k: u64) {
     leg.class(format!("large-pool|{}|free{}", n, free));
     leg.count("large_pool_scenarios", 1);
     match res {
-        Err(p) => leg.violation(format!("C09/large-pool-panic/{}", p.class()), format!("{} at {}", p.message, p.location), replay),
+        Err(p) => leg.violation(format!("{:?}/large-pool-panic/{}", prop, p.class()), format!("{} at {}", p.message, p.location), replay),
         Ok(Err(e)) => leg.inconclusive(format!("large pool scenario: {}", e)),
         Ok(Ok(viol)) => {
             for (sig, d) in viol {
-                leg.violation(format!("C09/{}", sig), d, replay.clone());
+                leg.violation(format!("{:?}/{}", prop, sig), d, replay.clone());
             }
         }
     }
